@@ -254,7 +254,11 @@ def correspond(ctx, traces, n_reopen):
 
 def run_block(ctx, chosen):
     """the block appended to C09's run(): correspondence, evidence texts, recheck"""
-    correspond(ctx, chosen, n_reopen=150 if ctx.quick else 1500)
+    # documents that keep their layers in Lr16 / Lr32 (the storage decision), always part of the comparison
+    deep = [T.run_history(r, [("newgroup", 0), ("move", 1, len(T.build(r).objs))], check_fresh=False, check_inv=False)
+            for r in (("nest", "RGB", 16), ("nest", "L", 32), ("board", "L", 16),
+                      ("fixture", "16bit5x5.psd"), ("fixture", "32bit5x5.psd"))]
+    correspond(ctx, deep + list(chosen), n_reopen=150 if ctx.quick else 1500)
     ctx.trusted_base += [
         "harness/c09_reopen.py: record / channel objects <-> model tokens by identity, forest notation parser",
         "harness/extract_c09.py: AST reader of save / _update_record / _build_record_tree / _get_layer_info / _iter_layers",
